@@ -61,8 +61,9 @@ def main():
                 S.cover = False
                 simmod.send_msg(proto_out, ('ok', res))
             elif kind == 'shrink':
-                _, prop, scenario, sig, budget = task
-                res = shrink.minimise(props.get(prop), scenario, sig, S, budget)
+                _, prop, scenario, sig, budget = task[:5]
+                wall = task[5] if len(task) > 5 else 90
+                res = shrink.minimise(props.get(prop), scenario, sig, S, budget, wall)
                 simmod.send_msg(proto_out, ('ok', res))
             else:
                 simmod.send_msg(proto_out, ('err', 'unknown task %r' % (kind,)))
